@@ -67,6 +67,12 @@ func constOperands(lax bool) []tv {
 	// unknown through arithmetic that fails (a product beyond the doubles, a
 	// division by zero) and through a number no comparison can read
 	ops = append(ops, tv{`(exists($.h * $.h))`, model.Unknown, false}, tv{`($.h * $.h > 1)`, model.Unknown, false}, tv{`(exists($.a / 0))`, model.Unknown, false}, tv{`($.big == 1)`, model.Unknown, false}, tv{`(exists(-$.h * $.h * 10))`, model.Unknown, false})
+	// unknown although the left operand selects nothing: the right one fails;
+	// and a prefix that is an array (a variable is not unwrapped there)
+	ops = append(ops, tv{`($.nokey == $.b.double())`, model.Unknown, false}, tv{`($.nokey > 1 / 0)`, model.Unknown, false}, tv{`("ab" starts with $sarr)`, model.Unknown, false}, tv{`($.b starts with $sarr)`, model.Unknown, false})
+	if lax {
+		ops = append(ops, tv{`($.nokey == $missing)`, model.Unknown, true})
+	}
 	if !lax {
 		ops = append(ops, tv{`($.nokey == 1)`, model.Unknown, false}, tv{`(exists($.nokey))`, model.Unknown, false})
 	} else {
